@@ -12,6 +12,8 @@ Q = A(TX, 'quantity')
 
 
 def check(ctx):
+    from ..lib import discarded_results
+    ctx.sub(discarded_results, 'C02.S5', ('qstrader/broker/',), 'holdings and marks are applied to the items they were prepared for')
     ctx.sub(s1_ownership)
     ctx.sub(s2_net_delta)
     ctx.sub(s3_presence)
